@@ -358,6 +358,14 @@ def parallel_map(fn, items, procs: int | None = None, chunksize: int = 1):
     procs = procs or NCPU
     if procs <= 1 or len(items) <= 1:
         return [fn(x) for x in items]
+    from concurrent.futures import ProcessPoolExecutor  # noqa: PLC0415
+    from concurrent.futures.process import BrokenProcessPool  # noqa: PLC0415
+
     ctx = mp.get_context("fork")
-    with ctx.Pool(procs) as pool:
-        return pool.map(fn, items, chunksize)
+    # ProcessPoolExecutor, not mp.Pool: a worker killed by the kernel (out of memory) breaks the pool and
+    # raises here, so the check ends as a machinery failure (exit 2) instead of waiting for ever.
+    try:
+        with ProcessPoolExecutor(max_workers=procs, mp_context=ctx) as pool:
+            return list(pool.map(fn, items, chunksize=chunksize))
+    except BrokenProcessPool as e:
+        raise MachineryError(f"a pool worker died (killed / out of memory?): {e}") from e
